@@ -383,7 +383,7 @@ class TaskScenario(ScenarioData):
 
             # Parse maxgapduration
             self._parse_duration(maxgap_str)
-            gap_hours = self._parse_duration(gap_str) if gap_str else 0
+            gap_hours = self._parse_duration(gap_str, calendar=True) if gap_str else 0
 
             # This task must end no more than maxgap_hours before successor can start
             # Required end time: successor_earliest - gap_hours (to satisfy gapduration)
@@ -517,7 +517,7 @@ class TaskScenario(ScenarioData):
                             # Add gap if specified
                             if gapduration:
                                 # gapduration is calendar time (e.g., "4h" = 4 hours)
-                                gap_hours = self._parse_duration(gapduration)
+                                gap_hours = self._parse_duration(gapduration, calendar=True)
                                 from datetime import timedelta
 
                                 dep_time = dep_time + timedelta(hours=gap_hours)
@@ -595,7 +595,7 @@ class TaskScenario(ScenarioData):
                             if pred_start:
                                 # Apply gapduration - A must end (gapduration) before B starts
                                 if gapduration:
-                                    gap_hours = self._parse_duration(gapduration)
+                                    gap_hours = self._parse_duration(gapduration, calendar=True)
                                     from datetime import timedelta
 
                                     pred_start = pred_start - timedelta(hours=gap_hours)
@@ -619,7 +619,7 @@ class TaskScenario(ScenarioData):
                             for sdep in succ_deps:
                                 if isinstance(sdep, dict) and sdep.get("task") is self.property:
                                     if sdep.get("gapduration") and not sdep.get("onstart"):
-                                        gap_hours = max(gap_hours, self._parse_duration(sdep.get("gapduration")))
+                                        gap_hours = max(gap_hours, self._parse_duration(sdep.get("gapduration"), calendar=True))
                             if gap_hours:
                                 from datetime import timedelta
 
@@ -971,9 +971,14 @@ class TaskScenario(ScenarioData):
         end_time, _ = self._calculatePreciseEndTimeAndRelease(required_effort, effort_before_slot, forward)
         return end_time
 
-    def _parse_duration(self, duration_str: Any) -> float:
+    def _parse_duration(self, duration_str: Any, calendar: bool = False) -> float:
         """
         Parse a duration string like '4h', '2d', '1w', '30min' into hours.
+
+        Args:
+            duration_str: The duration as written
+            calendar: True for a duration in calendar time (gapduration: a day is 24 hours, a
+                week seven days); False for working time (a day is 8 hours, a week 40)
         """
         if not duration_str:
             return 0
@@ -985,7 +990,10 @@ class TaskScenario(ScenarioData):
             return 0
         num = float(match.group(1))
         unit = match.group(2) or "h"
-        multipliers = {"min": 1 / 60, "h": 1, "d": 8, "w": 40, "m": 160, "y": 1920}
+        if calendar:
+            multipliers = {"min": 1 / 60, "h": 1, "d": 24, "w": 168, "m": 720, "y": 8760}
+        else:
+            multipliers = {"min": 1 / 60, "h": 1, "d": 8, "w": 40, "m": 160, "y": 1920}
         return num * multipliers.get(unit, 1)
 
     def isWorkingTime(self, slotIdx: int) -> bool:
